@@ -579,7 +579,11 @@ func snap(r *http.Request) reqSnap { return reqSnap{r.Method, r.URL.String(), en
 func urlGlue(u *url.URL) string {
 	// the components url.Parse delivers (EscapedPath is the one stdlib call of makeURLKey on the path);
 	// dot segments, percent-encoding, case and ports are the model's business
-	return "ok\t" + hx(u.Scheme) + "\t" + hx(u.Host) + "\t" + hx(u.EscapedPath()) + "\t" + hx(u.RawQuery) + "\t" + hx(u.Opaque)
+	fq := "0"
+	if u.ForceQuery {
+		fq = "1" // "/p?" : a query that is present and empty
+	}
+	return "ok\t" + hx(u.Scheme) + "\t" + hx(u.Host) + "\t" + hx(u.EscapedPath()) + "\t" + hx(u.RawQuery) + "\t" + hx(u.Opaque) + "\t" + fq
 }
 
 func runHistory(t *testing.T, h *History) (lines []string) {
@@ -605,7 +609,7 @@ func runHistory(t *testing.T, h *History) (lines []string) {
 		switch op.Op {
 		case "req":
 			u, err := url.Parse(op.URL)
-			glue := "bad\t-\t-\t-\t-\t-"
+			glue := "bad\t-\t-\t-\t-\t-\t-"
 			if err == nil {
 				glue = urlGlue(u)
 			}
@@ -932,7 +936,7 @@ var qClassFields = []string{"Accept", "Accept-Charset", "Accept-Language", "Acce
 func locGlue(reqURL *url.URL, loc string) string {
 	lu, err := url.Parse(loc)
 	if err != nil {
-		return "bad\t-\t-\t-\t-\t-\t-"
+		return "bad\t-\t-\t-\t-\t-\t-\t-"
 	}
 	r := reqURL.ResolveReference(lu)
 	return "ok\t" + hx(r.Scheme) + "\t" + hx(r.Host) + "\t" + urlGlue(r)
